@@ -103,6 +103,7 @@ type tr struct {
 	chanSub       map[string]int // virtual sub-channels: "<chan>/<value key>" → channel id
 	errs          []string
 	goSite        map[*ast.GoStmt]string
+	lastTick      string // source of the timer channel chanOf evaluated last
 	hint          string // name for the next channel / map created
 	nextRoot      int    // id for the next root context created by the code (-1: allocate)
 	effMemo       map[*ast.BlockStmt]bool
@@ -1020,6 +1021,7 @@ func (t *tr) chanOf(e ast.Expr) (int, string) {
 	case avChan:
 		return c.id, "chan"
 	case avTick:
+		t.lastTick = c.src
 		return 0, "tick"
 	case avNil:
 		// a nil channel: never ready, never closed
@@ -1147,6 +1149,7 @@ func (t *tr) recvStmt(u *ast.UnaryExpr, lhs []ast.Expr, at ast.Node, define bool
 	switch kind {
 	case "tick":
 		a := &alt{kind: "tick", n1: slot()}
+		t.p.timer(t.g.name, t.lastTick)
 		t.emit(&node{kind: "sel", alts: []*alt{a}, site: t.site(at, "")})
 		t.cur.pending = []*int{a.n1}
 		return one(t.cur)
@@ -1251,6 +1254,7 @@ func (t *tr) selectStmt(label string, x *ast.SelectStmt) []*cont {
 					// a context we do not track (a per-request context of another layer): may fire at any moment
 					t.p.warn("%s: %s is not a pipeline context; modelled as an event that may fire at any moment", fr.pkg.pos(cc), short(fr.pkg.fset, u.X))
 					a := &alt{kind: "tick", n1: slot()}
+					t.p.timer(t.g.name, "foreign-context")
 					nd.alts = append(nd.alts, a)
 					cls = append(cls, &clause{cc: cc, slots: []*int{a.n1}})
 					continue
@@ -1267,6 +1271,7 @@ func (t *tr) selectStmt(label string, x *ast.SelectStmt) []*cont {
 			switch kind {
 			case "tick":
 				a := &alt{kind: "tick", n1: slot()}
+				t.p.timer(t.g.name, t.lastTick)
 				nd.alts = append(nd.alts, a)
 				cls = append(cls, &clause{cc: cc, slots: []*int{a.n1}})
 			case "chan":
